@@ -43,7 +43,13 @@ func VerifSVGReaccept(n int) {
 	vReach("end")
 }
 
-func verifSVGReacceptFinding(out []byte) {}
+func verifSVGReacceptFinding(out []byte) {
+	for _, c := range out {
+		if c == 0 {
+			vKnown("C09-F23") // recorded finding (shared with xml): &#0; is decoded into a NUL byte, which the lexer rejects
+		}
+	}
+}
 
 // VerifSVGTruncated (C10): every prefix of a document template (position symbolic): no panic, terminates.
 func VerifSVGTruncated(n int) {
